@@ -176,6 +176,8 @@ def judgeStep (v : Variant) (opts : List Opt) (h : Hists) (now : Int) (op : Op) 
   | .ping i => (checkPing i b a res, h)
   | .reinstate i => (checkReinstate i b a res, h)
   | .age i => (checkAge b a && res == .ok, ageHists (window (newSupervisor opts)) i h)
+  -- a harness intervention on the test actor (its next PreStart calls fail); nothing observable changes
+  | .failPre _ _ => (checkAge b a && res == .ok, h)
 
 /-- the oracle over a whole script, for any per-step verdict `js`: `b` is the observation before the
     first op, the list holds the observation and the op's result after each op -/
